@@ -160,6 +160,13 @@ def gen_spec(rng, quals):
     return {"kind": "user", "which": rng.choice(["agg", "tf"])}
 
 
+def norm_eq(a, b):
+    try:
+        return bool(a == b) if not isinstance(a, (list, tuple, dict)) else a == b
+    except Exception:  # noqa: BLE001
+        return None
+
+
 def run_seq(case):
     I.set_salt([case["spec"], case["oseed"]])
     try:
@@ -173,6 +180,25 @@ def run_seq(case):
         problems = []
         for k, item in enumerate(case["seq"]):
             dm = probe if item == "PROBE" else mk(item)
+            if k == case.get("derive_at") and hasattr(obj, "get_parameters"):
+                # in between, somebody derives a VARIANT of the object (copy with one parameter overridden) and throws it
+                # away: the object, its plain copy and its rebuild from get_parameters() must not notice
+                try:
+                    ps = obj.get_parameters()
+                    ov = [(n, v) for n in ps for v in c16.OVERRIDES.get(n, []) if norm_eq(ps[n], v) is False]
+                    if ov:
+                        n, v = ov[case["oseed"] % len(ov)]
+                        obj.copy(**{n: v})
+                except Exception:  # noqa: BLE001
+                    pass
+            if item == "PROBE" and hasattr(obj, "copy") and case.get("derive_at") is not None:
+                for how, o2 in (("copy()", lambda: obj.copy()), ("rebuilt from get_parameters()", lambda: type(obj)(**obj.get_parameters()))):
+                    try:
+                        got = describe_out(call(o2(), probe))
+                    except Exception as e:  # noqa: BLE001
+                        got = ("EXC-BUILD", type(e).__name__)
+                    if got != ref:
+                        problems.append(f"call {k}: the object's {how} behaves differently from the object")
             out = describe_out(call(obj, dm, item))
             out2 = describe_out(call(twin, dm, item))
             if out != out2:
@@ -204,7 +230,8 @@ def run(ctx):
         for pos in sorted(ctx.rng.sample(range(len(seq) + 1), 2), reverse=True):
             seq.insert(pos, "PROBE")
         seq.append("PROBE")
-        cases.append({"spec": spec, "probe": probe, "seq": seq, "oseed": ctx.rng.randrange(10 ** 6)})
+        cases.append({"spec": spec, "probe": probe, "seq": seq, "oseed": ctx.rng.randrange(10 ** 6),
+                      "derive_at": ctx.rng.randrange(len(seq)) if ctx.rng.random() < 0.5 else None})
     outs = I.pmap(run_seq, cases, chunksize=4)
     for c, o in zip(cases, outs):
         name = c["spec"].get("qual", "").split(".")[-1] or c["spec"].get("cfg", {}).get("cls") or c["spec"]["kind"]
